@@ -23,7 +23,7 @@ RULE = (
     "different sides of the model's conditions; the branch signature of every column is computed with the "
     "reference evaluator) x parameters shared (n_p,) or per column (n_p, N) x t scalar or (N,) x functions "
     "rhs, monitor_values, explicit_euler, generalized_rush_larsen, hybrid_rush_larsen. Oracle: output shape is "
-    "(n_out, N) and column j equals (<= 4 ulp, NaN == NaN) the call on column j alone; any exception of the "
+    "(n_out, N) and column j equals (1e-13 relative to the column's magnitudes, NaN == NaN) the call on column j alone; any exception of the "
     "batched call is a violation. Non-trivial = >= 2 columns with different branch signatures; distinct by "
     "sha1 of the case."
 )
@@ -116,7 +116,10 @@ def check_case(case):
                 except Exception as ex:
                     raise Inconclusive(f"scalar-call:{type(ex).__name__}")
                 a, b = batched[:, j].astype(np.float64), single
-                bad = ~((np.abs(a - b) <= 4 * np.spacing(np.abs(b)) + 1e-300) | (np.isnan(a) & np.isnan(b)) | ((a == b)))
+                # numpy's vectorised (SIMD) pow / exp may differ from the scalar path by an ulp, and a
+                # scheme step x + dt*f can cancel: tolerance relative to the column's magnitudes
+                scale = max(1.0, float(np.max(np.abs(S[:, j]))) if S.size else 1.0)
+                bad = ~((np.abs(a - b) <= 1e-13 * np.maximum(np.abs(b), scale)) | (np.isnan(a) & np.isnan(b)) | ((a == b)))
                 if bad.any():
                     i = int(np.argmax(bad))
                     raise Violation(
